@@ -603,10 +603,15 @@ class ExprMixin:
             k = z3.Int(fresh_name("k"))
             body = self.equal(unbox(th.Idx(seq, k), elt), item, st, node)
             return z3.Exists([k], z3.And(0 <= k, k < th.Len(seq), body))
-        if isinstance(t, TDict):
-            return self.dict_has(st, container, coerce(item, t.key))
-        if isinstance(t, TSet):
-            return self.set_has(st, container, coerce(item, t.elt))
+        if isinstance(t, (TDict, TSet)):
+            kt = t.key if isinstance(t, TDict) else t.elt
+            has = self.dict_has if isinstance(t, TDict) else self.set_has
+            if isinstance(item.t, TOpt) and not isinstance(kt, (TOpt, TOpaque)):
+                # None is never a member of a container whose declared key type excludes it
+                return z3.And(z3.Not(opt_is_none(item)), has(st, container, coerce(opt_get(item), kt)))
+            if isinstance(item.t, TNone) and not isinstance(kt, (TOpt, TOpaque)):
+                return z3.BoolVal(False)
+            return has(st, container, coerce(item, kt))
         raise Unsupported(f"'in' on {t}: {self.src(node)}")
 
     def ev_Subscript(self, e, st):
@@ -653,6 +658,11 @@ class ExprMixin:
             elt = INT if isinstance(t, TBytes) else t.elt
             return unbox(th.Idx(seq, i), elt)
         if isinstance(t, TDict):
+            if isinstance(idx.t, TOpt) and not isinstance(t.key, (TOpt, TOpaque)):
+                # None is not a key of a dict whose declared key type excludes it: KeyError in the code,
+                # silently unwrapped in contract expressions (which guard it)
+                self.may_raise(st, opt_is_none(idx), "KeyError", node, "None is not a key")
+                idx = opt_get(idx)
             k = coerce(idx, t.key)
             self.may_raise(st, z3.Not(self.dict_has(st, base, k)), "KeyError", node, "missing key")
             return self.dict_get(st, base, k)
